@@ -91,6 +91,9 @@ def build_all(need_engine=False):
     if r.returncode != 0:
         problems["harness_build"] = r.stderr[-4000:]
         return problems
+    r = run([HARNESS, "seedcheck"])
+    if r.returncode != 0:
+        problems["seedcheck"] = r.stdout[-2000:]
     r = run([sys.executable, os.path.join(VERIF, "tools", "gen_constants.py")])
     if r.returncode != 0:
         problems["gen_constants"] = r.stderr
